@@ -311,13 +311,44 @@ func c05FailParks(c *Ctx, m *Module) {
 			failFn = a
 		}
 	}
-	r.Check("C05.fail-parks", "rotate1/has a fail closure that records the error and clears the current mapping", m.Pos(rot.Pos()), failFn != nil, "fail(err) must set f.err and f.current = nil")
-	if failFn == nil {
+	// the park action may also be written out in rotate1 itself (fail as a method, expanded by
+	// E14, or simply inline): f.current.Store(nil) next to a store of f.err in the same block
+	inlinePark := func(in ssa.Instruction) bool {
+		cc := callOf(in)
+		if cc == nil || in.Parent() != rot {
+			return false
+		}
+		n := calleeName(cc)
+		if !(strings.Contains(n, "Pointer[") && strings.Contains(n, ".Store") && isNilConst(cc.Args[1])) {
+			return false
+		}
+		for _, other := range in.Block().Instrs {
+			if st, ok := other.(*ssa.Store); ok {
+				if fa, ok := st.Addr.(*ssa.FieldAddr); ok {
+					if _, fld, _ := fieldAddrName(fa); fld == "err" {
+						return true
+					}
+				}
+			}
+		}
+		return false
+	}
+	nInline := 0
+	for _, in := range instrsOf(rot) {
+		if inlinePark(in) {
+			nInline++
+		}
+	}
+	r.Check("C05.fail-parks", "rotate1/has a fail action that records the error and clears the current mapping", m.Pos(rot.Pos()), failFn != nil || nInline > 0, "fail(err) must set f.err and f.current = nil")
+	if failFn == nil && nInline == 0 {
 		return
 	}
 	isFail := func(in ssa.Instruction) bool {
+		if inlinePark(in) {
+			return true
+		}
 		cc := callOf(in)
-		if cc == nil {
+		if cc == nil || failFn == nil {
 			return false
 		}
 		if mc, ok := cc.Value.(*ssa.MakeClosure); ok && mc.Fn == failFn {
